@@ -4,7 +4,7 @@
 //verif:pkg internal/transport
 //verif:bound loop=64 steps=8000000 preempt=2 paths=600000
 //verif:noreplay schedule-dependent and virtual-clock based: witnesses are re-executed deterministically in the engine
-//verif:outside the client stream reader (readClient closes the stream through the transport, not executed here); grpc-timeout values other than the listed ones (the encode/decode pair is C07)
+//verif:outside grpc-timeout values other than the listed ones (the encode/decode pair is C07)
 package transport
 
 import (
@@ -51,6 +51,63 @@ func verifH_C22_read() {
 		verifAssert(err2 != nil, "and the error is sticky")
 		verifCover("done")
 		cancel()
+	})
+}
+
+// a client blocked reading a message body (or a message header) is released by its context: the real client stream
+// and http2Client.closeStream are executed, so the stream is also closed with RST_STREAM(CANCEL)
+func verifH_C22_readclient() {
+	useDeadline := verifBool("deadline")
+	header := verifBool("blocked-on-the-message-header")
+	var ctx context.Context
+	var cancel context.CancelFunc
+	if useDeadline {
+		ctx, cancel = context.WithTimeout(context.Background(), time.Second)
+	} else {
+		ctx, cancel = context.WithCancel(context.Background())
+	}
+	done := make(chan struct{})
+	tctx, tcancel := context.WithCancel(context.Background())
+	t := &http2Client{ctx: tctx, cancel: tcancel, controlBuf: newControlBuffer(done), activeStreams: map[uint32]*ClientStream{}, streamsQuotaAvailable: make(chan struct{}, 1)}
+	s := t.newStream(ctx, &CallHdr{Method: "/s/m"}, nil)
+	s.id = 1
+	t.activeStreams[1] = s
+	returned := false
+	var err error
+	go func() {
+		verifDaemon()
+		if header {
+			var hdr [5]byte
+			_, err = s.trReader.reader.ReadMessageHeader(hdr[:])
+		} else {
+			_, err = s.trReader.reader.Read(5)
+		}
+		returned = true
+	}()
+	if !useDeadline {
+		go cancel()
+	}
+	verifAtQuiescence(func() {
+		verifAssert(returned, "a client blocked reading a message is released by cancellation or by the deadline")
+		want := codes.Canceled
+		if useDeadline {
+			want = codes.DeadlineExceeded
+		}
+		verifAssert(status.Code(err) == want, "with the matching status code")
+		rst := 0
+		for {
+			it, _ := t.controlBuf.get(false)
+			if it == nil {
+				break
+			}
+			if c, ok := it.(*cleanupStream); ok && c.rst && c.rstCode == http2.ErrCodeCancel && c.streamID == 1 {
+				rst++
+			}
+		}
+		verifAssert(rst == 1, "and the server is told with RST_STREAM(CANCEL), once")
+		verifCover("done")
+		cancel()
+		tcancel()
 	})
 }
 
